@@ -456,4 +456,4 @@ def case_st(draw):
 
 
 def parts():
-    return [Part("compositions", check, strategy=case_st(), budget={"quick": 5000, "thorough": 120000})]
+    return [Part("compositions", check, strategy=case_st(), budget={"quick": 5000, "thorough": 120000}, fuzz={"thorough": 10000})]
